@@ -47,6 +47,22 @@ Section LiveMulti.
                 /\ forall s0 s1, accts s0 = accts s -> one_dst_post E rcpt verify rae x s0 s1 -> dest_ready rcpt verify rae r s1
     end.
 
+  (* introduction forms (for concrete triples) *)
+  Lemma triple_ready_nft rcpt verify rae x s t :
+    (verify = true -> payable E rcpt = PayYes) -> (0 <? rt_nonce x)%N = true ->
+    dec_tok (cdc E) (rt_third x) = Some t -> t_value t <> None ->
+    nft_entry_ok E s rcpt (nft_key (P ++ rt_tok x) (tok_nonce t)) t ->
+    (rae = false -> rcpt <> SC -> nft_flags_ok E s rcpt (P ++ rt_tok x) t) ->
+    triple_ready rcpt verify rae x s.
+  Proof. intros Hp Hn Hd Hv He Hf. split; [exact Hp|]. rewrite Hn. exists t. auto. Qed.
+  Lemma triple_ready_fungible rcpt verify rae x s :
+    (verify = true -> payable E rcpt = PayYes) -> (0 <? rt_nonce x)%N = false ->
+    fungible_or_absent E s rcpt (P ++ rt_tok x) ->
+    (rae = false -> rcpt <> SC -> frozen_at E s rcpt (P ++ rt_tok x) = false /\ paused_at s (P ++ rt_tok x) = false) ->
+    (0 <= balance E s rcpt (P ++ rt_tok x) + rt_qty x)%Z ->
+    triple_ready rcpt verify rae x s.
+  Proof. intros Hp Hn He Hf Hb. split; [exact Hp|]. rewrite Hn. auto. Qed.
+
   Lemma fungible_or_absent_accts s s' a k : accts s' = accts s -> fungible_or_absent E s a k -> fungible_or_absent E s' a k.
   Proof.
     intros Ha [H|(t & H1 & H2)]; [left|right; exists t].
@@ -218,5 +234,205 @@ Section LiveMulti.
   Qed.
 End LiveMulti.
 
+(* the destination-side notions depend on the input through its argument list only *)
+Lemma multi_triples_args fuel i i' off : i_args i' = i_args i ->
+  forall idx, multi_triples fuel i' off idx = multi_triples fuel i off idx.
+Proof.
+  intros Ha. induction fuel as [|f IH]; intros idx; [reflexivity|]. cbn [multi_triples]. rewrite IH. unfold argn. rewrite Ha. reflexivity.
+Qed.
+Lemma multi_n_dst_args i i' : i_args i' = i_args i -> multi_n_dst i' = multi_n_dst i.
+Proof. intros Ha. unfold multi_n_dst, argn. rewrite Ha. reflexivity. Qed.
+Lemma multi_dst_triples_args i i' : i_args i' = i_args i -> multi_dst_triples i' = multi_dst_triples i.
+Proof. intros Ha. unfold multi_dst_triples. rewrite (multi_n_dst_args i i' Ha). apply multi_triples_args. exact Ha. Qed.
+Lemma multi_dest_guards_args E i i' : i_args i' = i_args i -> delivered_shape i' ->
+  multi_dest_guards E i -> multi_dest_guards E i'.
+Proof.
+  intros Ha Hs (_ & H). unfold multi_dest_guards. rewrite (multi_n_dst_args i i' Ha), (multi_dst_triples_args i i' Ha), Ha.
+  split; [exact Hs|exact H].
+Qed.
+
+(* the sender side allocated three slices of the announced count: the count fits *)
+Lemma multi_sender_count_fits E i s o s' : f_multi_transfer E i s = (Ok o, s') -> i_caller i = i_rcpt i ->
+  (multi_n_snd i <= 1099511627776)%N.
+Proof.
+  unfold f_multi_transfer. cbv zeta. intros H Heq.
+  apply bind_ok in H as (u0 & s0 & _ & H). apply bind_ok in H as (u1 & s1 & _ & H).
+  rewrite Heq, beqb_refl in H. unfold f_multi_transfer_sender in H. cbv zeta in H.
+  apply bind_ok in H as (dst & s2 & H0 & H). apply arg_ok in H0 as (_ & _ & ->).
+  apply bind_ok in H as (g1 & s3 & _ & H). apply bind_ok in H as (g2 & s4 & _ & H). apply bind_ok in H as (g3 & s5 & _ & H).
+  apply bind_ok in H as (a1 & s6 & H0 & H). apply arg_ok in H0 as (Ha1 & _ & ->).
+  change (N.to_nat 1) with 1%nat in Ha1. apply nth_error_argn in Ha1. subst a1.
+  apply bind_ok in H as (g4 & s7 & _ & H). apply bind_ok in H as (g5 & s8 & _ & H). apply bind_ok in H as (g6 & s9 & _ & H).
+  apply bind_ok in H as (g7 & s10 & _ & H). apply bind_ok in H as (g8 & s11 & _ & H).
+  apply bind_ok in H as (g9 & s12 & H0 & _). apply alloc_ok in H0 as (Hn & _). exact Hn.
+Qed.
+
+Section LiveWorldMulti.
+  Variable c : wcfg.
+  Hypothesis Hc : codec_ok (wc_cdc c).
+  Notation shof := (wc_shard_of c).
+
+  (* count and triples of a MultiESDTNFTTransfer message (through any input that carries its arguments) *)
+  Definition mmsg_input (m : msg) : input := deliver_input c m (shof (m_dest m)) 0.
+  Definition mmsg_n (m : msg) : N := multi_n_dst (mmsg_input m).
+  Definition mmsg_triples (m : msg) : list rawtriple := multi_dst_triples (mmsg_input m).
+
+  (* the static part of "the destination accepts": the argument-count / shape guards of the destination side
+     (C10_Accept.multi_dest_guards: at least four arguments, count non-zero, every announced triple present, every NFT
+     payload decodes with a value) and a count for which the destination can allocate (2^40) *)
+  Definition multi_msg (m : msg) : Prop :=
+    m_fn m = C.BuiltInFunctionMultiESDTNFTTransfer /\ (mmsg_n m <= 1099511627776)%N
+    /\ multi_dest_guards (env_at c (shof (m_dest m))) (mmsg_input m).
+
+  (* the destination side accepts the arguments of such a message, on any input of the delivered shape *)
+  Lemma multi_msg_dest_succeeds sh m0 m i :
+    multi_msg m -> i_args i = m_args m -> delivered_shape i ->
+    dest_ready (env_at c sh) (i_rcpt i) (must_verify_payable i (multi_min 1 (mmsg_n m))) (i_rae i) (mmsg_triples m) (mk_state m0) ->
+    exists o s', exec (env_at c sh) (m_fn m) i (mk_state m0) = (Ok o, s').
+  Proof.
+    intros (Hfn & Hn & Hg) Hargs Hshape Hr. rewrite Hfn, exec_multi_transfer.
+    assert (Ha : i_args i = i_args (mmsg_input m)) by exact Hargs.
+    destruct (multi_dest_succeeds (env_at c sh) Hc (env_at_no_faults c sh) i (mk_state m0)) as (s' & H).
+    - apply (multi_dest_guards_args _ (mmsg_input m) i Ha Hshape). exact Hg.
+    - rewrite (multi_n_dst_args _ _ Ha). exact Hn.
+    - rewrite (multi_n_dst_args _ _ Ha), (multi_dst_triples_args _ _ Ha). exact Hr.
+    - eexists. eexists. exact H.
+  Qed.
+
+  Lemma deliver_shape m gas : msg_ok c m -> delivered_shape (deliver_input c m (shof (m_dest m)) gas).
+  Proof.
+    intros Hm. apply deliver_input_shape.
+    - apply N.eqb_neq. exact (mo_caller c m Hm).
+    - intros He. apply (mo_caller c m Hm). rewrite He. reflexivity.
+  Qed.
+  Lemma refund_shape m gas : msg_ok c m -> delivered_shape (refund_input c m (shof (m_sender m)) gas).
+  Proof.
+    intros Hm. unfold delivered_shape. cbn [refund_input i_value i_snd i_dst i_caller i_rcpt].
+    split; [reflexivity|]. split; [|split; [reflexivity|]].
+    - apply N.eqb_neq. intros He. apply (mo_sender c m Hm). symmetry. exact He.
+    - intros He. apply (mo_sender c m Hm). rewrite He. reflexivity.
+  Qed.
+
+  (* delivery succeeds under the conditions of the property text, triple by triple *)
+  Theorem deliver_succeeds_multi m0 m gas :
+    let sh := shof (m_dest m) in
+    let i := deliver_input c m sh gas in
+    multi_msg m -> msg_ok c m ->
+    dest_ready (env_at c sh) (m_dest m) (must_verify_payable i (multi_min 1 (mmsg_n m))) false (mmsg_triples m) (mk_state m0) ->
+    exists o s', exec (env_at c sh) (m_fn m) i (mk_state m0) = (Ok o, s').
+  Proof.
+    intros sh i Hem Hm Hr. apply (multi_msg_dest_succeeds sh m0 m i Hem eq_refl (deliver_shape m gas Hm)). exact Hr.
+  Qed.
+
+  (* the refund: return-after-error and callback call type, so payability / frozen / paused are not looked at *)
+  Theorem refund_succeeds_multi m0 m gas :
+    let sh := shof (m_sender m) in
+    multi_msg m -> msg_ok c m ->
+    dest_ready (env_at c sh) (m_sender m) false true (mmsg_triples m) (mk_state m0) ->
+    exists o s', exec (env_at c sh) (m_fn m) (refund_input c m sh gas) (mk_state m0) = (Ok o, s').
+  Proof.
+    intros sh Hem Hm Hr. apply (multi_msg_dest_succeeds sh m0 m (refund_input c m sh gas) Hem eq_refl (refund_shape m gas Hm)). exact Hr.
+  Qed.
+
+  (* ---- world level ---- *)
+  Theorem deliver_accepted_multi w id gas m :
+    let sh := shof (m_dest m) in
+    let s := mk_state (shard_accts w sh) in
+    let i := deliver_input c m sh gas in
+    WInv c w -> find_msg (inflight w) id = Some m -> multi_msg m -> (sh <? wc_nshards c)%N = true ->
+    dest_ready (env_at c sh) (m_dest m) (must_verify_payable i (multi_min 1 (mmsg_n m))) false (mmsg_triples m) s ->
+    let w' := wstep c w (ODeliver id gas) in
+    inflight w' = drop_msg (inflight w) id /\ failed w' = failed w
+    /\ forall a k, wbal c w' a k = (wbal c w a k + (if beqb a (m_dest m) then qty c k m else 0))%Z.
+  Proof.
+    intros sh s i Hinv Hfind Hem Hsh Hr.
+    pose proof (inflight_msg_ok c w id m Hinv Hfind) as Hm.
+    destruct (deliver_succeeds_multi (shard_accts w sh) m gas Hem Hm Hr) as (o & s' & Hex).
+    destruct (deliver_commits c Hc w id gas m o s' Hinv Hfind Hsh Hex) as (Hi & Hf & _ & Hb).
+    cbv zeta. split; [exact Hi|]. split; [exact Hf|exact Hb].
+  Qed.
+
+  Theorem rejected_then_refund_multi w id gas gas' m :
+    let shd := shof (m_dest m) in
+    let shs := shof (m_sender m) in
+    WInv c w -> find_msg (inflight w) id = Some m -> multi_msg m ->
+    (shd <? wc_nshards c)%N = true -> (shs <? wc_nshards c)%N = true ->
+    (forall o s', exec (env_at c shd) (m_fn m) (deliver_input c m shd gas) (mk_state (shard_accts w shd)) <> (Ok o, s')) ->
+    (* at refund time every triple finds the debited account's entry absent or compatible (rae: no flag is looked at) *)
+    dest_ready (env_at c shs) (m_sender m) false true (mmsg_triples m) (mk_state (shard_accts w shs)) ->
+    let w1 := wstep c w (ODeliver id gas) in
+    let w2 := wstep c w1 (ORefund id gas') in
+    shards w1 = shards w /\ inflight w1 = inflight w /\ nat_in id (failed w1) = true
+    /\ inflight w2 = drop_msg (inflight w) id /\ nat_in id (failed w2) = false
+    /\ (forall a k, wbal c w2 a k = (wbal c w a k + (if beqb a (m_sender m) then qty c k m else 0))%Z)
+    /\ forall k, total c k w2 = total c k w.
+  Proof.
+    intros shd shs Hinv Hfind Hem Hshd Hshs Hrej Hr.
+    pose proof (inflight_msg_ok c w id m Hinv Hfind) as Hm.
+    pose proof (refund_succeeds_multi (shard_accts w shs) m gas' Hem Hm Hr) as Hex.
+    exact (rejected_then_refund c Hc w id gas gas' m Hinv Hfind Hshd Hshs Hrej Hex).
+  Qed.
+
+  (* ---- what the sender side emits ---- *)
+  Lemma origin_multi_caller_is_rcpt sh i s o s' : origin_call c sh i ->
+    f_multi_transfer (env_at c sh) i s = (Ok o, s') -> i_caller i = i_rcpt i.
+  Proof.
+    intros (Hcal & Hsnd & _) H. pose proof (multi_transfer_needs_sender (env_at c sh) Hc _ _ _ _ H) as Hx.
+    destruct (beqb_spec (i_caller i) (i_rcpt i)) as [He'|_]; [exact He'|]. rewrite Hcal, N.eqb_refl in Hsnd. destruct Hx; congruence.
+  Qed.
+
+  Lemma emitted_multi_wf sh m0 i id o s' m :
+    origin_call c sh i -> exec (env_at c sh) C.BuiltInFunctionMultiESDTNFTTransfer i (mk_state m0) = (Ok o, s') ->
+    In m (collect c sh C.BuiltInFunctionMultiESDTNFTTransfer i id o) ->
+    multi_msg m /\ collect c sh C.BuiltInFunctionMultiESDTNFTTransfer i id o = [m]
+    /\ m_id m = id /\ m_dest m = multi_dst i /\ m_sender m = i_caller i /\ m_caller m = i_caller i
+    /\ shof (m_dest m) <> sh /\ mmsg_n m = multi_n_snd i
+    (* the triples of the message are the encodings of the travelling entries *)
+    /\ exists lst, multi_snd_post (env_at c sh) i lst (mk_state m0) o s'
+                   /\ mmsg_triples m = map (raw_of (env_at c sh)) lst.
+  Proof.
+    intros Hor H Hin. pose proof H as Hex. rewrite exec_multi_transfer in H.
+    pose proof (origin_multi_caller_is_rcpt sh i _ _ _ Hor H) as Heq. destruct Hor as (Hcal & Hsnd & Hdst).
+    assert (Hsame : multi_same (env_at c sh) i = (shof (argn i 0) =? sh)%N).
+    { unfold multi_same. cbn [self_shard shard_of env_at]. apply N.eqb_sym. }
+    destruct (multi_sender_post (env_at c sh) Hc _ _ _ _ H Heq) as (lst & Hp).
+    destruct (shof (argn i 0) =? sh)%N eqn:Ed.
+    { exfalso. apply N.eqb_eq in Ed.
+      rewrite (collect_all_local c sh _ i id o) in Hin; [contradiction| |right; exact travels_multi]. intros oa Hoa.
+      rewrite (mp_out _ _ _ _ _ _ Hp) in Hoa. unfold multi_sender_out in Hoa. cbv zeta in Hoa. rewrite Hsame in Hoa. cbn [negb] in Hoa.
+      destruct ((multi_min 2 (multi_n_snd i) <? alen (i_args i))%N && is_sc (multi_dst i))%bool; cbn in Hoa; [|contradiction].
+      destruct Hoa as [<-|[]]. exact Ed. }
+    apply N.eqb_neq in Ed.
+    pose proof (multi_out_accounts_cross (env_at c sh) _ _ _ _ _ Hp Hsame) as Hout. cbv zeta in Hout.
+    pose proof (collect_one_cross c sh C.BuiltInFunctionMultiESDTNFTTransfer i id o _ _ _ _ Hout eq_refl emittable_multi Ed Hcal) as Hcol.
+    cbn [tr_sender tr_callType tr_gasLimit tr_gasLocked] in Hcol.
+    rewrite Hcol in Hin. destruct Hin as [Hm|[]]. rewrite Hm in Hcol.
+    assert (Hargs : m_args m = (u64_bytes (multi_n_snd i) :: out_args_pure (env_at c sh) lst)
+                               ++ skipn (N.to_nat (multi_min 2 (multi_n_snd i))) (i_args i)) by (rewrite <- Hm; reflexivity).
+    assert (Hdest : m_dest m = multi_dst i) by (rewrite <- Hm; reflexivity).
+    assert (Hmcal : m_caller m = i_caller i) by (rewrite <- Hm; reflexivity).
+    (* the guards, from C10 *)
+    destruct (world_continuation_accepted_shape_multi c sh i (mk_state m0) o s' id Hc Hex Heq Hcal Ed) as (m' & Hca & _ & _ & _ & Hg).
+    assert (m' = m).
+    { assert (Hx : collect c sh C.BuiltInFunctionMultiESDTNFTTransfer i id o = [m']) by (unfold collect; rewrite Hca; reflexivity).
+      rewrite Hcol in Hx. inversion Hx. reflexivity. }
+    subst m'. specialize (Hg 0%N).
+    destruct (emitted_multi_faithful_args (env_at c sh) Hc _ _ _ _ _ Hp (mmsg_input m) Hargs) as (_ & Hn & _ & Hlen).
+    split; [|split; [exact Hcol|]].
+    { split; [rewrite <- Hm; reflexivity|]. split; [|exact Hg].
+      unfold mmsg_n. rewrite Hn. apply (multi_sender_count_fits (env_at c sh) i _ _ _ H Heq). }
+    split; [rewrite <- Hm; reflexivity|]. split; [exact Hdest|]. split; [rewrite <- Hm; reflexivity|]. split; [exact Hmcal|].
+    split; [rewrite Hdest; exact Ed|]. split; [exact Hn|].
+    exists lst. split; [exact Hp|].
+    unfold mmsg_triples, multi_dst_triples. fold (mmsg_n m). unfold mmsg_n. rewrite Hn, <- Hlen. change 0%N with (N.of_nat 0).
+    apply (multi_triples_out_args (env_at c sh) (mmsg_input m) lst [u64_bytes (multi_n_snd i)]
+             (skipn (N.to_nat (multi_min 2 (multi_n_snd i))) (i_args i)) 0); [|reflexivity].
+    change (i_args (mmsg_input m)) with (m_args m). rewrite Hargs. reflexivity.
+  Qed.
+End LiveWorldMulti.
+
 Print Assumptions multi_dest_succeeds.
 Print Assumptions dest_ready_distinct.
+Print Assumptions emitted_multi_wf.
+Print Assumptions deliver_accepted_multi.
+Print Assumptions rejected_then_refund_multi.
